@@ -93,13 +93,33 @@ pub struct Invocation {
     pub ordinal: usize,
 }
 
+/// what the abstract cache protocol (spec/CacheAbs.tla) can see of an execution: evaluations starting, finishing and
+/// being dropped (logged by the recorder) and the scripted user functions being entered and returning (logged by
+/// the functions themselves); `seq` is one counter for all of them, taken under the lock that protects the list
+#[derive(Clone, Debug)]
+pub struct Event {
+    pub seq: usize,
+    pub ev: usize,
+    pub kind: &'static str,
+    pub func: String,
+    pub arg: Option<Value>,
+    pub ordinal: usize,
+    pub ok: bool,
+}
+
 #[derive(Default)]
 pub struct Log {
     pub seq: AtomicUsize,
     pub entries: Mutex<Vec<Invocation>>,
+    pub events: Mutex<Vec<Event>>,
 }
 
 impl Log {
+    pub fn event(&self, ev: usize, kind: &'static str, func: &str, arg: Option<&Value>, ordinal: usize, ok: bool) {
+        let mut events = self.events.lock().unwrap();
+        let seq = self.seq.fetch_add(1, Ordering::SeqCst);
+        events.push(Event { seq, ev, kind, func: func.to_string(), arg: arg.cloned(), ordinal, ok });
+    }
     pub fn snapshot(&self) -> Vec<Invocation> {
         self.entries.lock().unwrap().clone()
     }
@@ -150,9 +170,10 @@ impl UserFunction for ModelFn {
             let seq = self.log.seq.fetch_add(1, Ordering::SeqCst);
             entries.push(Invocation { ev, seq, func: self.name.to_string(), arg: params.clone(), ordinal });
         }
+        self.log.event(ev, "invoke", self.name, Some(&params), ordinal, true);
         YieldN(self.suspend).await;
         let res = if self.script.is_empty() { &FnRes::Echo } else { &self.script[(ordinal - 1).min(self.script.len() - 1)] };
-        match res {
+        let out: FunctionResult = match res {
             FnRes::Val(v) => Ok(v.clone()),
             FnRes::Counter => Ok(Value::Int(ordinal as i128)),
             FnRes::Tagged => Ok(Value::Vec(vec![params, Value::Int(ordinal as i128)])),
@@ -163,7 +184,10 @@ impl UserFunction for ModelFn {
                 Value::Int(i) => i.checked_mul(2).map(Value::Int).ok_or_else(|| anyhow::anyhow!("not a small int")),
                 _ => Err(anyhow::anyhow!("not a small int")),
             },
-        }
+        };
+        // the linearisation point "Return": the result exists, the library has not seen it yet
+        self.log.event(ev, "ret", self.name, None, ordinal, out.is_ok());
+        out
     }
     fn name(&self) -> &'static str {
         self.name
